@@ -380,6 +380,8 @@ class Fallibility:
                 if not self.call_infallible(e.src_call):
                     res = False
                     reasons.append(e.desc)
+            elif e.kind == 'try' and e.src_local is not None and self.value_infallible(body, e.src_local):
+                pass      # `?` on a Result assembled in place (an inlined helper's return value) that cannot be an Err
             else:
                 res = False
                 reasons.append(e.desc)
@@ -725,6 +727,20 @@ class PanicSite:
         return '<panic %s %s %s:%d>' % (self.kind, self.detail, self.body.key, self.ln)
 
 
+def narrow_int_type(body, t):
+    cond = t.get('cond')
+    if cond is None or not is_place(cond):
+        return None
+    l = op_place(cond)['l']
+    for d in body.defs().get(l, []):
+        if d.kind == 'assign' and d.rv['k'] == 'bin' and d.rv['op'].endswith('WithOverflow'):
+            for o in (d.rv['a'], d.rv['b']):
+                ty = body.local_ty(op_local(o)) if is_place(o) and not op_place(o)['p'] else (o.get('c', {}).get('ty') if 'c' in o else None)
+                if ty in ('i8', 'u8', 'i16', 'u16', 'i32', 'u32'):
+                    return ty
+    return None
+
+
 def panic_sites(body):
     out = []
     live = body.live_blocks()
@@ -736,6 +752,12 @@ def panic_sites(body):
             ps.exp = t.get('exp', False)
             ps.kind = t['msg']
             ps.detail = t['op'] or t['msg']
+            if ps.kind == 'overflow':
+                # arithmetic on integers narrower than a pointer is named with its type: the arguments that discharge
+                # length / counter arithmetic on usize do not carry over to an i8 or a u32
+                nt = narrow_int_type(body, t)
+                if nt:
+                    ps.detail = '%s:%s' % (ps.detail, nt)
             out.append(ps)
         elif t['k'] == 'call':
             c = body.call_at(b)
